@@ -215,8 +215,14 @@ impl AnyCache {
             "costAdd": m.get_cost_added().unwrap_or(0) as i64, "costEvict": m.get_cost_evicted().unwrap_or(0) as i64,
             "dropSets": m.get_sets_dropped().unwrap_or(0), "rejectSets": m.get_sets_rejected().unwrap_or(0),
             "dropGets": m.get_gets_dropped().unwrap_or(0), "keepGets": m.get_gets_kept().unwrap_or(0),
+            "ratio_ppm": (m.ratio().unwrap_or(0.0) * 1_000_000.0).round() as i64,
+            "life_count": m.life_expectancy_seconds().map(|h| parse_count(&format!("{}", h))).unwrap_or(0),
         })
     }
+}
+
+fn parse_count(s: &str) -> i64 {
+    s.lines().find_map(|l| l.strip_prefix("Count: ")).and_then(|v| v.trim().parse().ok()).unwrap_or(-1)
 }
 
 pub const MS: u64 = 1_000_000;
